@@ -1,10 +1,15 @@
 #[allow(unused_imports)]
 use log::{debug, error, info, warn};
 use petgraph::{graphmap::GraphMap, Directed, Direction};
+#[cfg(not(tyberiusprime_pypipegraph2_verif))]
 use std::{
     borrow::Cow,
     collections::{HashMap, HashSet, VecDeque},
 };
+#[cfg(tyberiusprime_pypipegraph2_verif)]
+use crate::verif_seam::{HashMap, HashSet, SeamNew as _};
+#[cfg(tyberiusprime_pypipegraph2_verif)]
+use std::{borrow::Cow, collections::VecDeque};
 
 use crate::{PPGEvaluatorError, PPGEvaluatorStrategy};
 
@@ -239,6 +244,12 @@ macro_rules! set_node_state {
              => panic!("Moving a job between kinds"), // if you encounter this from python, the
                                                        // sky must be falling
         }
+        #[cfg(tyberiusprime_pypipegraph2_verif)]
+        crate::verif_seam::log_transition(
+            &$node.job_id,
+            verif_state_code(&$node.state),
+            verif_state_code(&$new_state),
+        );
         $node.state = $new_state;
         $gen.advance();
     };
@@ -944,6 +955,12 @@ impl<T: PPGEvaluatorStrategy> PPGEvaluator<T> {
             for idx in candidates.iter() {
                 debug!("removed leaf ephemeral {}", self.jobs[*idx].job_id);
                 self.dag.remove_node(*idx);
+                #[cfg(tyberiusprime_pypipegraph2_verif)]
+                crate::verif_seam::log_transition(
+                    &self.jobs[*idx].job_id,
+                    verif_state_code(&self.jobs[*idx].state),
+                    verif_state_code(&JobState::Ephemeral(JobStateEphemeral::FinishedSkipped)),
+                );
                 self.jobs[*idx].state = JobState::Ephemeral(JobStateEphemeral::FinishedSkipped);
                 ephemerals.remove(idx);
             }
@@ -2586,5 +2603,115 @@ impl<T: PPGEvaluatorStrategy> PPGEvaluator<T> {
             self.signals.push_back(signal)
         }
         debug!("done adding root signals\n");
+    }
+}
+
+#[cfg(tyberiusprime_pypipegraph2_verif)]
+pub(crate) fn verif_state_code(state: &JobState) -> crate::verif_seam::VState {
+    use crate::verif_seam::*;
+    fn vs(v: ValidationStatus) -> u8 {
+        match v {
+            ValidationStatus::Unknown => 0,
+            ValidationStatus::Validated => 1,
+            ValidationStatus::Invalidated => 2,
+        }
+    }
+    let (kind, code, v) = match state {
+        JobState::Always(s) => (
+            0,
+            match s {
+                JobStateAlways::Undetermined => ST_NOT_READY,
+                JobStateAlways::ReadyToRun => ST_READY,
+                JobStateAlways::Running => ST_RUNNING,
+                JobStateAlways::FinishedSuccess => ST_SUCCESS,
+                JobStateAlways::FinishedFailure => ST_FAILURE,
+                JobStateAlways::FinishedUpstreamFailure => ST_UPSTREAM_FAILURE,
+                JobStateAlways::FinishedAborted => ST_ABORTED,
+            },
+            0,
+        ),
+        JobState::Output(s) => match s {
+            JobStateOutput::NotReady(v) => (1, ST_NOT_READY, vs(*v)),
+            JobStateOutput::ReadyToRun => (1, ST_READY, 0),
+            JobStateOutput::Running => (1, ST_RUNNING, 0),
+            JobStateOutput::FinishedSuccess => (1, ST_SUCCESS, 0),
+            JobStateOutput::FinishedFailure => (1, ST_FAILURE, 0),
+            JobStateOutput::FinishedUpstreamFailure => (1, ST_UPSTREAM_FAILURE, 0),
+            JobStateOutput::FinishedSkipped => (1, ST_SKIPPED, 0),
+            JobStateOutput::FinishedAborted => (1, ST_ABORTED, 0),
+        },
+        JobState::Ephemeral(s) => match s {
+            JobStateEphemeral::NotReady(v) => (2, ST_NOT_READY, vs(*v)),
+            JobStateEphemeral::ReadyButDelayed => (2, ST_DELAYED, 0),
+            JobStateEphemeral::ReadyToRun(v) => (2, ST_READY, vs(*v)),
+            JobStateEphemeral::Running(v) => (2, ST_RUNNING, vs(*v)),
+            JobStateEphemeral::FinishedSuccessNotReadyForCleanup => (2, ST_SUCCESS, 0),
+            JobStateEphemeral::FinishedSuccessReadyForCleanup => {
+                (2, ST_SUCCESS_READY_CLEANUP, 0)
+            }
+            JobStateEphemeral::FinishedSuccessCleanedUp => (2, ST_SUCCESS_CLEANED, 0),
+            JobStateEphemeral::FinishedSuccessSkipCleanup => (2, ST_SUCCESS_SKIP_CLEANUP, 0),
+            JobStateEphemeral::FinishedFailure => (2, ST_FAILURE, 0),
+            JobStateEphemeral::FinishedUpstreamFailure => (2, ST_UPSTREAM_FAILURE, 0),
+            JobStateEphemeral::FinishedSkipped => (2, ST_SKIPPED, 0),
+            JobStateEphemeral::FinishedAborted => (2, ST_ABORTED, 0),
+        },
+    };
+    VState { kind, code, vs: v }
+}
+
+#[cfg(tyberiusprime_pypipegraph2_verif)]
+impl<T: PPGEvaluatorStrategy> PPGEvaluator<T> {
+    /// Read-only structured copy of the evaluator's state (verification only).
+    pub fn verif_snapshot(&self) -> crate::verif_seam::VSnapshot {
+        use crate::verif_seam::*;
+        fn req(r: Required) -> u8 {
+            match r {
+                Required::Unknown => 0,
+                Required::Yes => 1,
+                Required::No => 2,
+            }
+        }
+        let jobs = self
+            .jobs
+            .iter()
+            .enumerate()
+            .map(|(idx, j)| VJob {
+                job_id: j.job_id.clone(),
+                state: verif_state_code(&j.state),
+                history_output: j.history_output.clone(),
+                in_dag: self.dag.contains_node(idx),
+            })
+            .collect();
+        let mut edges: Vec<VEdge> = self
+            .dag
+            .all_edges()
+            .map(|(a, b, w)| VEdge {
+                upstream: self.jobs[a].job_id.clone(),
+                downstream: self.jobs[b].job_id.clone(),
+                required: req(w.required),
+                invalidated: req(w.invalidated),
+            })
+            .collect();
+        edges.sort_by(|x, y| {
+            (&x.upstream, &x.downstream).cmp(&(&y.upstream, &y.downstream))
+        });
+        let mut ready_to_run: Vec<String> = self.jobs_ready_to_run.iter().cloned().collect();
+        ready_to_run.sort();
+        let mut ready_for_cleanup: Vec<String> =
+            self.jobs_ready_for_cleanup.iter().cloned().collect();
+        ready_for_cleanup.sort();
+        VSnapshot {
+            jobs,
+            edges,
+            pending_signals: self.signals.len(),
+            start_status: match self.already_started {
+                StartStatus::NotStarted => 0,
+                StartStatus::Running => 1,
+                StartStatus::Finished => 2,
+            },
+            ready_to_run,
+            ready_for_cleanup,
+        }
     }
 }
